@@ -397,6 +397,9 @@ pub fn install_panic_hook() {
             .location()
             .map(|l| format!("{}:{}", l.file().trim_start_matches("/repo/"), l.line()))
             .unwrap_or_default();
+        if std::env::var("C06_SHOW_PANICS").is_ok() {
+            eprintln!("panic at {}: {}", loc, info);
+        }
         if let Ok(mut g) = LAST_PANIC.lock() {
             *g = loc;
         }
@@ -784,7 +787,7 @@ pub fn run(args: &Args, out: &mut Out) {
     }
     out.stats.insert("aborting_primitives".into(), (aborting.len() as u64).into());
     // the model's tables cover the generated table exactly (evaluated by the driver, not the kernel)
-    out.case("coverage", "(coverage (unmodelled) (ghost) (dup) (stray))");
+    out.case("coverage", "(coverage (unmodelled) (ghost) (dup) (stray) (raw-route))");
     // whole programs
     for ((name, prog), (class, detail)) in PROGRAMS.iter().zip(results[n_prim..].iter()) {
         out.count(&format!("program-outcome:{}", if is_abort(class) { "abort" } else { class.as_str() }));
